@@ -56,12 +56,13 @@ def handle (op : String) (a : Json) : Except String Json := do
         ("post", boolJ (bufferPostTol tol b tb fb rb)), ("post_strict", boolJ (bufferPost b tb fb rb)),
         ("shortfall", ratsJ (shortfall b tb fb rb)),
         ("shortfall_net", ratsJ (shortfallTol tol b tb fb rb)),
-        ("offcap", arrJ ((offCap g b).map boolJ))])
+        ("offcap", arrJ ((offCap g b tb fb (← fldRat a "mu")).map boolJ))])
   | "offcap" =>
-    -- per side of the bounds: is the extreme attained off the ends of open lines
+    -- per side of the bounds: is the extreme attained away from the ends of open lines
     let g ← getGeom (← fld a "g")
     let b ← geomBounds g
-    return valJ (Json.mkObj [("offcap", arrJ ((offCap g b).map boolJ)), ("bounds", boundsJ b)])
+    return valJ (Json.mkObj [("offcap", arrJ ((offCap g b (← fldRat a "tb") (← fldRat a "fb") (← fldRat a "mu")).map boolJ)),
+      ("bounds", boundsJ b)])
   | "pipeline_args" =>
     -- the straight-line skeleton of `buffer_shapely_geometry` on a probe point `(px, py)` of the
     -- input, a probe point `(qx, qy)` of GEOS's buffer, its largest x `qm` and the observed upper
